@@ -88,7 +88,7 @@ fn cx_fn(ctx: &Ctx, r: &mut Report) {
         ("unimock, mock_api = TrMock, export", 1, true, false, true),
         ("?Send", 0, false, true, false),
         ("?Send, mockall = true, export = false", 2, true, true, false),
-        ("unimock = false, mock_api = TrMock, mockall = false", 0, true, false, false),
+        ("unimock = false, mock_api = TrMock, mockall = false", 0, false, false, false), // switched off = absent: blanket impl
         ("export, mockall, ?Send", 2, true, true, true),
     ];
     let fattrs = ["", "#[inline]", "#[doc = \"d\"] #[async_trait::async_trait]"];
@@ -545,8 +545,8 @@ fn cx_trait(ctx: &Ctx, r: &mut Report) {
                     want_rest.push("'static");
                 }
                 _ => {
+                    // no `Send`: the forwarded call only holds a shared reference to T
                     if a {
-                        want_rest.push("::core::marker::Send");
                         want_rest.push("::core::marker::Sync");
                     }
                     want_rest.push("'static");
